@@ -519,6 +519,9 @@ func checkDecodedAlg(r *Report, accessor *ssa.Function) {
 		}
 	}
 	o.check(uses, "calls "+shortFn(accessor), "decoder does not call "+shortFn(accessor))
+	// ... and always replaces the destination map: no alg of an earlier
+	// decode survives in Headers.Protected (shared with R19.2)
+	checkReceiverAssigned(r, "R04.4", ph)
 
 	// R04.5: the accessor's value table
 	checkAlgAccessor(r, "R04.5", accessor)
@@ -544,6 +547,18 @@ func checkAlgAccessor(r *Report, rule string, acc *ssa.Function) {
 			fs.add(c)
 		}
 		if k, _ := P.classifyErr(res[ei], fs); k == exitFailure {
+			// "not found" is reported only when the label is absent: a present
+			// value (whatever it is) must never look like a missing alg, which
+			// the gates tolerate under external data / fill in when signing
+			if strings.Contains(P.expandErr(res[ei], 0).String(), "*@ErrAlgorithmNotFound") {
+				absent := false
+				for _, c := range p.conds {
+					if !c.Val && c.Pred.Op == "res" && c.Pred.S == "1" && strings.Contains(c.Pred.String(), "$0") && strings.Contains(c.Pred.String(), "iface<int64>(1)") {
+						absent = true
+					}
+				}
+				r.ob(rule, shortFn(acc)+":not-found:"+pathID(p), acc, p.ret, "ErrAlgorithmNotFound is returned only when label 1 is absent").check(absent, "lookup failed on this path", "ErrAlgorithmNotFound is returned on a path where label 1 is present: the gates treat such a header as carrying no alg")
+			}
 			continue
 		}
 		np++
